@@ -335,6 +335,15 @@ pub fn run(rep: &mut Report, tier: Tier) {
         }
     });
     rep.absorb(t);
+    // pumped linear families
+    let all = refmodel::pump::all(tier == Tier::Thorough);
+    let np = all.len();
+    let t = explore::par_tally(all, |(fam, n, v), t| {
+        check_value(&v, t);
+        t.nontrivial(&(format!("{fam:?}"), n));
+    });
+    rep.absorb(t);
+    rep.bounds["pumped_values"] = json!(np);
     // strings
     let mut t = Tally::new();
     for s in ["", "a", "\"\\/\u{8}\u{c}\n\r\t\u{1}\u{1f}\u{7f}\u{e9}\u{2028}\u{1f600}\u{ffff}", "a-string-longer-than-sixteen-bytes"] {
@@ -343,7 +352,8 @@ pub fn run(rep: &mut Report, tier: Tier) {
     }
     rep.absorb(t);
     rep.tally.sample(json!({"value": "{\"a\":0,\"b\":1.5,\"a\":null}", "serialized_expected": expected_serialized(&RV::Obj(vec![("a".into(), RV::num("0")), ("b".into(), RV::num("1.5")), ("a".into(), RV::Null)])).show()}));
-    rep.bounds = json!({"number_spellings": nsp, "spelling_alphabet": "019-.eE+", "max_spelling_length": l, "boundary_numbers": boundary_numbers().len(), "structure_values": nv, "structure_max_nodes": n, "keys": keys});
+    let pumped_n = rep.bounds["pumped_values"].clone();
+    rep.bounds = json!({"pumped_values": pumped_n, "number_spellings": nsp, "spelling_alphabet": "019-.eE+", "max_spelling_length": l, "boundary_numbers": boundary_numbers().len(), "structure_values": nv, "structure_max_nodes": n, "keys": keys});
 }
 
 pub fn replay(case: &explore::serde_json::Value) -> Result<(), String> {
